@@ -173,6 +173,8 @@ def _encodings(uni, flts):
 
 
 def run(prop, tier, seed, **kw):
+    if prop in ("C08", "C09"):
+        return run_writer(prop, tier, seed, **kw)
     out = Outcome(prop, tier, seed, "model_checking")
     for key, fn in queryfam.MATCHERS.get(prop, {}).items():
         out.add_matcher(key, fn)
@@ -276,3 +278,98 @@ def _dump(path, prop, uni, ln, b):
         json.dump({"meta": {"property": prop, "backend": "lmdb", "engine": "kvscan", "store": sorted(ln["store"]), "filter": ln["_f"],
                             "concrete_filter": uni.conc_filter(ln["_f"])},
                    "verdict": [b], "trace": [{"scanner_yields": ln["ys"], "answer": ln["ans"], "error": ln["_err"]}]}, fp, indent=1, default=str)
+
+
+# ---------------------------------------------------------------------------------------------
+# writer engine: WriterThread.run / _post_save against KvWrite.tla (second engine of C08 and C09)
+
+def _writer_lines(tr):
+    """(pre, op, id, post) for every write transaction of a store trace on LMDB"""
+    out = []
+    pre, q = set(), []
+    for ln in tr:
+        if ln["a"] == "Writer" and q:
+            op, sym = q[0]
+            if op in ("add", "del") and not str(sym).startswith("?"):
+                out.append({"pre": set(pre), "op": op, "id": sym, "post": set(ln["post"])})
+        if "post" in ln:
+            pre = set(ln["post"])
+        if "q" in ln:
+            q = list(ln["q"])
+    return out
+
+
+def run_writer(prop, tier, seed, **kw):
+    from .. import gen
+    from . import storefam
+
+    out = Outcome(prop, tier, seed, "model_checking")
+    rnd = random.Random(seed)
+    design = tlc.DesignCheck([("MC_KvWrite", "MC_KvWrite.cfg", "KvWrite")], workers=4, timeout=1800)
+    depth = {"quick": 3, "thorough": 4}[tier]
+    cap = {"quick": 400, "thorough": 6000}[tier]
+    own = prop + "_"
+    total_dev = 0
+    first_dev = None
+    distinct = set()
+    samples = []
+    for uname, descs in storefam.UNIVERSES[prop]().items():
+        uni = Universe(descs, symtab=storefam.SYMTABS.get(uname))
+        try:
+            pksym, idsym, chars = _encodings(uni, [])
+        except ValueError:
+            continue        # strings with NUL: outside the byte-order model
+        scripts, gstats = gen.gen_store_scripts(uni, "lmdb", depth, (), drain_each=False, workers=2)
+        out.add_model(gstats)
+        scripts = sorted(scripts)
+        if len(scripts) > cap:
+            rnd.shuffle(scripts)
+            scripts = scripts[:cap]
+        traces = pool.run_scripts(uni, "lmdb", [tuple(sc) for sc in scripts])
+        wtr = [_writer_lines(tr) for tr in traces]
+        # e-tag values name events by symbol: their concrete form is the hex id, whose bytes the table needs only as tag values
+        defs = {"TD_Universe": uni.tla_universe(), "TD_OneCharNames": uni.one_char_names(), "TD_PkSym": pksym, "TD_IdSym": idsym, "TD_Chars": chars}
+        verdicts, vstats = tracedata.validate("KvWrite_Trace", defs, wtr, batch=100)
+        out.add_model(vstats)
+        for k, tr in enumerate(wtr):
+            if not tr:
+                continue
+            out.cov["traces_validated_against_impl"] += 1
+            out.cov["evaluations"] += len(tr)
+            for ln in tr:
+                if ln["pre"] - ln["post"]:
+                    distinct.add((uname, repr(sorted(ln["pre"])), ln["op"], ln["id"]))
+            if len(samples) < 3 and k % 53 == 7:
+                samples.append({"universe": uname, "script": list(scripts[k]), "writer_steps": [{a: (sorted(b) if isinstance(b, set) else b) for a, b in ln.items()} for ln in tr]})
+            for b in verdicts[k]:
+                ln = tr[b[1] - 1]
+                if b[0] == "Conform":
+                    total_dev += 1
+                    first_dev = first_dev or {"universe": uname, "step": {a: (sorted(x) if isinstance(x, set) else x) for a, x in ln.items()}}
+                    continue
+                if not b[0].startswith(own):
+                    continue
+                what = "%s on lmdb/%s (writer engine): %s violated by write transaction %s of %s: %s -> %s; script=%s" % (
+                    prop, uname, b[0], ln["op"], ln["id"], sorted(ln["pre"]), sorted(ln["post"]), list(scripts[k]))
+                out.violation(what, {"backend": "lmdb", "universe": uname, "formula": b[0], "line": ln, "script": list(scripts[k])},
+                              lambda p, ln=ln, b=b, uname=uname, sc=scripts[k]: _dump_w(p, prop, uname, sc, ln, b))
+    design.join(out)
+    if total_dev:
+        print("NOTE: on %d write transactions the LMDB writer and its transcription KvWrite.tla differ; the design-level result of "
+              "MC_KvWrite no longer transfers to this code. First: %s" % (total_dev, first_dev))
+    out.cov["distinct_nontrivial"] = len(distinct)
+    out.cov["rule"] = ("writer engine: behaviours of Store.tla to depth %d (writer lagging) over the %s universes on LMDBStorage; for every "
+                       "write transaction (stored ids before, queued operation, stored ids after, all dumped from the environment) TLC "
+                       "computes KvWrite.tla's outcome - index walk of KvScan.tla included - compares, and evaluates the %s clauses on the "
+                       "recorded step; non-trivial = the transaction removed something" % (depth, prop, prop))
+    out.cov["samples"] = samples or [{"note": "none"}]
+    out.notes["writer_model_deviations"] = {"count": total_dev, "first": first_dev}
+    return out
+
+
+def _dump_w(path, prop, uname, script, ln, b):
+    import json
+
+    with open(path, "w") as fp:
+        json.dump({"meta": {"property": prop, "backend": "lmdb", "engine": "kvwrite", "universe": uname, "script": list(script)},
+                   "verdict": [b], "trace": [{a: (sorted(x) if isinstance(x, set) else x) for a, x in ln.items()}]}, fp, indent=1, default=str)
